@@ -106,6 +106,20 @@ def gen_list(rng, encoding='utf-8', n_distinct=None, allow_ew=True, boost_words=
                 seen.add(p)
         if mw not in seen:
             items.append((cap(rng, mw) + rng.choice(['', '1', '!']), rng.choice([1, 2, 4])))
+    if boost_words and rng.random() < 0.5:
+        # three-word multi-words sharing a tail: every base word frequent enough to be a split part, the concatenations rare
+        pool = [w for w in ['correct', 'horse', 'battery', 'staple', 'blue', 'moon', 'river', 'stone', 'fire', 'wall', 'night', 'king'] if w not in seen]
+        if len(pool) >= 4:
+            ws = rng.sample(pool, 4)
+            for w in ws:
+                items.append((w, rng.choice([5, 5, 6, 7])))
+                seen.add(w)
+            combos = [ws[0] + ws[1] + ws[2], ws[3] + ws[1] + ws[2], ws[1] + ws[2] + rng.choice(['!', '1', '']), ws[0] + ws[3]]
+            for c in rng.sample(combos, rng.randint(2, 4)):
+                c = cap(rng, c)
+                if len(c) < 21 + 2 and c not in seen:
+                    items.append((c, rng.choice([1, 1, 2])))
+                    seen.add(c)
     rng.shuffle(items)
     return items
 
